@@ -745,6 +745,14 @@ where
                             self.buffer.pop_front();
                         }
                     }
+                    if self.begin < 0 && self.end > 0 {
+                        //the buffer holds the items before the absolute end; those before the relative begin are not wanted
+                        //(self.cursor is the total number of items now)
+                        let start = (self.cursor + self.begin).max(0) as usize;
+                        for _ in 0..start.min(self.buffer.len()) {
+                            self.buffer.pop_front();
+                        }
+                    }
                     if self.end < 0 {
                         //discard some items at the end which we do not want
                         for _ in 0..self.end.unsigned_abs() {
